@@ -18,7 +18,7 @@ programs of any shape and nesting), every world `w` (values, registered watchers
 and every amount of fuel; `r ≠ oof` / `r = ok` is the partial-correctness side condition.
 Event parameters are modelled (`Cfg.events`).  Class-level assignment runs the same code on the class
 object (the harness runs the programs at both levels).  Not modelled here (see DESIGN.md):
-kwargs mode (`watch_values`).  Parameter-attribute (slot) watchers are modelled (`Stmt.setSlot`).
+async callbacks, `Skip`.  kwargs mode (`watch_values`, `shown`) and Parameter-attribute (slot) watchers are modelled (`Stmt.setSlot`).
 -/
 import ParamVerif.Dispatch.Lemmas
 import ParamVerif.Dispatch.EqualLemmas
@@ -39,7 +39,7 @@ theorem assignment_reaches_each_watcher_once (c : Cfg) (f : Nat) (w : World) (p 
     (hb : w.batch = false) (hok : (run c f (.setPlain p v) w).1 = .ok) :
     (callSigs (run c f (.setPlain p v) w).2.2).filter (fun s => !s.2.2) =
       (expectedFor w p (getVal w p) v).map
-        (fun wt => (wt.cb, [typed w.trigger wt { name := p, old := getVal w p, new := v }], false)) := by
+        (fun wt => (wt.cb, shown wt [typed w.trigger wt { name := p, old := getVal w p, new := v }], false)) := by
   cases f with
   | zero => simp [run] at hok
   | succ f =>
@@ -89,7 +89,7 @@ theorem slot_assignment_reaches_each_watcher_once (c : Cfg) (f : Nat) (w : World
     (hnoreg : (p, k) ∉ w.slotKeys → regsForSlot w p k = []) :
     (callSigs (run c f (.setSlot p k v) w).2.2).filter (fun s => !s.2.2) =
       ((regsForSlot w p k).filter (fun wt => passes w.trigger wt { name := p, old := getSlot w p k, new := v, what := k })).map
-        (fun wt => (wt.cb, [typed w.trigger wt { name := p, old := getSlot w p k, new := v, what := k }], false)) := by
+        (fun wt => (wt.cb, shown wt [typed w.trigger wt { name := p, old := getSlot w p k, new := v, what := k }], false)) := by
   cases f with
   | zero => simp [run] at hok
   | succ f =>
@@ -227,7 +227,7 @@ theorem nonqueued_callback_runs_body_unbatched (c : Cfg) (f : Nat) (w : World) (
     (evs : List TEv) (fl : Bool) (hq : wt.queued = false) (hb : w.batch = false) :
     run c (f + 1) (.exec wt evs fl) w =
       let r := run c f (.stmts (c.body wt.body)) { w with batch := false, ncalls := w.ncalls + 1 }
-      (r.1, { r.2.1 with batch := false }, [.call wt.cb evs fl w.vals r.2.2 r.1]) := by
+      (r.1, { r.2.1 with batch := false }, [.call wt.cb (shown wt evs) fl w.vals r.2.2 r.1]) := by
   simp [run, hq, hb]
 
 /-! ### The changes-only test on arbitrary values (`Comparator.is_equal`) -/
